@@ -12,6 +12,7 @@ package main
 
 import (
 	"bytes"
+	"errors"
 	"context"
 	"fmt"
 	"io"
@@ -43,10 +44,12 @@ import (
 	"verif/vlib"
 )
 
+var errInjected = errors.New("injected read fault (verif)")
+
 func main() { vlib.Run("C31", run) }
 
 func run(c *vlib.Ctx) {
-	c.Rule("case = one random UnixFS tree (depth <= 3, basic and HAMT directories of fan-out 8..256, files 0..40kB with chunk 1..1024 / fan-out 2..174 / balanced|trickle / raw|pb leaves, symlinks, repeated subtrees and periodic files so blocks repeat) served by NewBlocksBackend+NewHandler (DeserializedResponses on or off) + 10..16 requests: format=raw (query or Accept; GET and HEAD; root, entry paths when deserialized responses are on, and inner blocks by CID) and format=car x dag-scope {absent,block,entity,all} x entity-bytes from {0,pos,-neg,>=size} : to {*,pos,-neg,>size} x dups {absent,y,n via car-dups or Accept} x order/version params, on the root, on entry paths of depth 1..3 and on file CIDs directly. Stratum hamt forces a wide HAMT root (multi-level shards), stratum files asks ranges on multi-level file DAGs. distinct = FNV of tree summary + requests + observed results; non-trivial = the case verified a CAR whose path crosses a HAMT with >= 2 shard levels or an entity-bytes CAR that is a strict subset of the file's blocks, and a DAG with repeated blocks was served both without and (if drawn) with dups")
+	c.Rule("case = one random UnixFS tree (depth <= 3, basic and HAMT directories of fan-out 8..256, files 0..40kB with chunk 1..1024 / fan-out 2..174 / balanced|trickle / raw|pb leaves, symlinks, repeated subtrees and periodic files so blocks repeat) served by NewBlocksBackend+NewHandler (DeserializedResponses on or off) + 10..16 requests: format=raw (query or Accept; GET and HEAD; root, entry paths when deserialized responses are on, and inner blocks by CID) and format=car x dag-scope {absent,block,entity,all} x entity-bytes from {0,pos,-neg,>=size} : to {*,pos,-neg,>size} x dups {absent,y,n via car-dups or Accept} x order/version params, on the root, on entry paths of depth 1..3 and on file CIDs directly. Stratum hamt forces a wide HAMT root (multi-level shards), stratum files asks ranges on multi-level file DAGs. Plus 3 CAR requests per case for NON-existing paths (<dir>/<absent>[/more]), one of them with reads of a block on the path failing from the 1st..3rd read on: a 200 must carry a proof of absence (path blocks present; offline resolution from the CAR alone ends in ErrNoLink at the missing segment), non-200 is accepted. distinct = FNV of tree summary + requests + observed results; non-trivial = the case verified a CAR whose path crosses a HAMT with >= 2 shard levels or an entity-bytes CAR that is a strict subset of the file's blocks, and a DAG with repeated blocks was served both without and (if drawn) with dups")
 	c.Cases("mixed", c.N(72, 700), func(k *vlib.Case) {
 		oneCase(k, ufsgen.TreeOpts{MaxDepth: 3, MaxEntries: 10, SubEntries: 8, MaxFileSize: 6000, Symlinks: true, Repeats: true}, 0)
 	})
@@ -76,7 +79,7 @@ type target struct {
 
 func oneCase(k *vlib.Case, o ufsgen.TreeOpts, flavour int) {
 	r := k.R
-	env := ufsgen.NewEnv()
+	env := ufsgen.NewEnvCtx() // reads under a done context fail; reads can be made to fail by injection
 	root, err := ufsgen.GenTree(r, env, o)
 	if err != nil {
 		panic(err)
@@ -124,6 +127,10 @@ func oneCase(k *vlib.Case, o ufsgen.TreeOpts, flavour int) {
 		} else {
 			w.carRequest(t, flavour)
 		}
+	}
+	// non-existing paths: the CAR must prove the absence
+	for i := 0; i < 3 && !w.hung && len(dirsT) > 0; i++ {
+		w.absentRequest(dirsT[r.Intn(len(dirsT))], i == 2 || r.Chance(1, 3))
 	}
 	// an inner block (file leaf / internal node / HAMT shard) by its own CID
 	var inner []cid.Cid
@@ -711,4 +718,150 @@ func mustBlock(data []byte, c cid.Cid) blocks.Block {
 		panic(err)
 	}
 	return b
+}
+
+// absentRequest asks for a CAR of <dir>/<name that does not exist>[/more].
+// A 200 answer is the "proof of absence" CAR: all its blocks must hash, and
+// resolving the same path offline from only these blocks must fail with
+// ErrNoLink naming the missing segment (not with a missing block); the
+// directory / shard blocks of the existing segments must be present. With
+// withFault, reads of one block on the path fail from the n-th read on: a
+// non-200 answer is fine then, a 200 must still be a sufficient proof.
+func (w *world) absentRequest(t target, withFault bool) {
+	k, r := w.k, w.k.R
+	name := "absent-" + ufsgen.RandName(r)
+	if t.e.Child(name) != nil {
+		return
+	}
+	segs := append(append([]string(nil), t.segs...), name)
+	if r.Chance(1, 3) {
+		segs = append(segs, ufsgen.RandName(r))
+	}
+	q := url.Values{}
+	q.Set("format", "car")
+	if sc := vlib.Pick(r, []string{"", "block", "entity", "all"}); sc != "" {
+		q.Set("dag-scope", sc)
+	}
+	u := escPath(w.root.Cid, segs) + "?" + q.Encode()
+
+	// blocks of the existing part of the path
+	var needs []need
+	cur := w.root
+	for _, sg := range t.segs {
+		switch cur.Kind {
+		case ufsgen.KDir:
+			needs = append(needs, need{cur.Cid, "path: directory block holding " + strconv.Quote(sg)})
+		case ufsgen.KHAMT:
+			for i, c := range w.hamtChain(cur.Cid, sg) {
+				if i == 0 {
+					needs = append(needs, need{c, "path: root shard of the HAMT holding " + strconv.Quote(sg)})
+				} else {
+					needs = append(needs, need{c, "path: inner HAMT shard on the way to " + strconv.Quote(sg)})
+				}
+			}
+		}
+		cur = cur.Child(sg)
+	}
+	needs = append(needs, need{t.e.Cid, "parent directory of the missing name"})
+
+	feat := "absent/" + t.e.Kind.String()
+	if withFault {
+		victim := needs[r.Intn(len(needs))]
+		n := r.Range(1, 3)
+		k.Logf("fault: reads of %s (%s) fail from read #%d on", victim.c, victim.why, n)
+		w.env.SetFaultN(victim.c, errInjected, n-1, -1)
+		defer w.env.ClearFaults()
+		feat += "/read-fault"
+		if strings.Contains(victim.why, "inner HAMT shard") {
+			// listed finding: a failing read of an inner shard of an intermediate
+			// HAMT is swallowed by the selector traversal and reported as "no link"
+			feat = "absent/inner-shard-read-fault"
+		}
+	}
+	k.Logf("GET car (missing path) %s [first missing segment %q in %s dir %q]", u, name, t.e.Kind, t.segs)
+	rec := w.serve("GET", u, nil)
+	if w.hung {
+		return
+	}
+	fired := 0
+	if withFault {
+		fired = w.env.FaultsFired()
+		w.env.ClearFaults()
+	}
+	body := rec.Body.Bytes()
+	k.C.Count("absent_path_requests", 1)
+	k.C.Count(fmt.Sprintf("absent_status_%d", rec.Code), 1)
+	if rec.Code != 200 {
+		k.Logf("  -> %d %.80q (injected failures %d)", rec.Code, body, fired)
+		if !withFault || fired == 0 {
+			k.C.Count("absent_non200_without_fault", 1)
+		}
+		return
+	}
+	br, err := car.NewBlockReader(bytes.NewReader(body), car.WithTrustedCAR(true))
+	if err != nil {
+		k.Fail("car-parse/"+feat, "body is a CAR", "decodable CARv1", err.Error())
+		return
+	}
+	off := bstore.NewBlockstore(dssync.MutexWrap(ds.NewMapDatastore()))
+	gotMh := map[string]bool{}
+	nblk := 0
+	for {
+		blk, err := br.Next()
+		if err == io.EOF {
+			break
+		}
+		if err != nil {
+			k.Fail("car-parse/"+feat, "every CAR section decodes", "blocks until EOF", err.Error())
+			return
+		}
+		if !hashesTo(blk.Cid(), blk.RawData()) {
+			k.Fail("car-block-hash", "every block's bytes hash to its CID", blk.Cid().String(), "bytes that do not")
+			continue
+		}
+		nblk++
+		gotMh[string(blk.Cid().Hash())] = true
+		if err := off.Put(context.Background(), mustBlock(blk.RawData(), blk.Cid())); err != nil {
+			panic(err)
+		}
+	}
+	k.Logf("  -> 200 roots=%v blocks=%d stream-error=%q (injected failures %d)", br.Roots, nblk, rec.Header().Get("X-Stream-Error"), fired)
+	missing := 0
+	for _, nd := range needs {
+		if !gotMh[string(nd.c.Hash())] {
+			missing++
+			if missing <= 2 {
+				k.Fail("car-absence-missing-block/"+feat, "a 200 CAR for a missing path holds every block needed to verify the absence", nd.c.String()+" ("+nd.why+")",
+					fmt.Sprintf("absent; CAR has %d blocks; request %s", nblk, u))
+			}
+		}
+	}
+	// replay: the absence must be derivable from the CAR alone
+	oenv := ufsgen.NewEnvOver(off)
+	cfg := bsfetcher.NewFetcherConfig(oenv.BSrv)
+	cfg.PrototypeChooser = dagpb.AddSupportToChooser(bsfetcher.DefaultPrototypeChooser)
+	res := resolver.NewBasicResolver(cfg.WithReifier(unixfsnode.Reify))
+	pp, err := path.Join(path.FromCid(w.root.Cid), segs...)
+	if err != nil {
+		return
+	}
+	ip, err := path.NewImmutablePath(pp)
+	if err != nil || len(ip.Segments()) != len(segs)+2 {
+		return
+	}
+	_, _, rerr := res.ResolveToLastNode(context.Background(), ip)
+	var nl *resolver.ErrNoLink
+	switch {
+	case rerr == nil:
+		k.Fail("car-absence-replay/"+feat, "missing path does not resolve offline", "ErrNoLink naming "+name, "resolved")
+	case !errors.As(rerr, &nl):
+		k.Fail("car-absence-replay/"+feat, "absence verifiable from the CAR alone (offline resolution ends in ErrNoLink at the missing segment)", "ErrNoLink naming "+name,
+			fmt.Sprintf("%v (%T); CAR has %d blocks; request %s", rerr, rerr, nblk, u))
+	case nl.Name != name:
+		k.Fail("car-absence-replay/"+feat, "offline resolution names the missing segment", name, nl.Name)
+	default:
+		if missing == 0 {
+			k.C.Count("absence_proofs_verified", 1)
+		}
+	}
 }
